@@ -3,6 +3,7 @@ package lab
 import (
 	"fmt"
 	"strings"
+	"time"
 
 	"github.com/element-of-surprise/coercion/plugins/registry"
 	"github.com/element-of-surprise/coercion/workflow"
@@ -152,6 +153,16 @@ func (d Durable) attempts(tag string) int {
 	return 0
 }
 
+// anyPlanRunning: some plan is durably Running in the snapshot.
+func (d Durable) anyPlanRunning(nPlans int) bool {
+	for pi := 0; pi < nPlans; pi++ {
+		if d.status(fmt.Sprintf("p%d", pi)) == workflow.Running {
+			return true
+		}
+	}
+	return false
+}
+
 func finished(s workflow.Status) bool { return s == workflow.Completed || s == workflow.Failed }
 
 // successDurable: "a sequence action whose success was already durable".
@@ -170,6 +181,36 @@ func (d Durable) successDurable(tag string) bool {
 // CheckC09 judges the recovery run rr (started on the durable snapshot d) against C09.
 func CheckC09(sc *Scenario, d Durable, rr *RunResult, where string, res *vprop.Result) (nontrivial bool) {
 	ix := BuildIndex(rr)
+	// Within the restarted process itself: an action is never invoked while another invocation of the same action is
+	// still executing, and a sequence action is never invoked again once its success has been stored by this process
+	// ("never invokes the plugin again for a sequence action whose success was already durable") — a plan that start-up
+	// hands to two state machines shows here.
+	if !sc.HasOverrun() { // a timed-out invocation may legitimately still be executing when its retry begins
+		open := map[string]int{}
+		stored := map[string]int{}
+		for i, e := range rr.Events {
+			switch e.Kind {
+			case EvEnter:
+				if !e.Ref.IsCont() && open[e.Tag] > 0 {
+					res.Fail("C09/action-invoked-while-executing", "%s: %s#%d was invoked (log %d) while an earlier invocation of the same action was still executing: the plan is being executed twice\n%s", where, e.Tag, e.N, i, FormatEvents(rr.Events[:i+1], 40))
+					return
+				}
+				open[e.Tag]++
+				if at, ok := stored[e.Tag]; ok && e.Ref.IsSeq() {
+					res.Fail("C09/successful-action-reinvoked:within-the-restarted-process", "%s: the success of %s was stored at log %d of the restarted process, yet it was invoked again at log %d\n%s", where, e.Tag, at, i, FormatEvents(rr.Events[:i+1], 40))
+					return
+				}
+			case EvExit:
+				open[e.Tag]--
+			case EvWriteEnd:
+				if e.W != nil && e.W.Err == nil && e.W.Obj == workflow.OTAction && e.W.State.Status == workflow.Completed {
+					if _, ok := stored[e.W.Tag]; !ok {
+						stored[e.W.Tag] = i
+					}
+				}
+			}
+		}
+	}
 	for pi := range sc.Plans {
 		ptag := fmt.Sprintf("p%d", pi)
 		planDone := finished(d.status(ptag))
@@ -309,6 +350,34 @@ func CheckC10(sc *Scenario, d Durable, rr *RunResult, ref []*workflow.Plan, wher
 	return nontrivial
 }
 
+// RecoverAtPrefix rebuilds the store from the first permille of the committed writes of rr0 and lets a new Workstream
+// recover on it; ok is false when the prefix cannot be used (not every plan created yet, rebuild failed).
+func RecoverAtPrefix(sc *Scenario, rr0 *RunResult, permille int) (rr *RunResult, ok bool) {
+	writes := DurableWrites(rr0)
+	if len(writes) == 0 {
+		return nil, false
+	}
+	k := 1 + permille*(len(writes)-1)/1000
+	if k < 1 || k > len(writes) {
+		return nil, false
+	}
+	reg := NewRegistry(sc)
+	v, created, err := RebuildVault(reg, writes[:k])
+	if err != nil {
+		return nil, false
+	}
+	if len(created) != len(sc.Plans) {
+		v.Close(context.Background())
+		return nil, false
+	}
+	ids := make([]uuid.UUID, len(created))
+	for i, p := range created {
+		ids[i] = p.ID
+	}
+	rr = Run(sc, RunOpts{Vault: v, Reg: reg, Recover: true, Pristine: created, RecoverIDs: ids})
+	return rr, rr.NewErr == nil
+}
+
 // CrashCase is the unit of generation of C09/C10.
 type CrashCase struct {
 	Sc Scenario
@@ -330,6 +399,11 @@ type CrashCase struct {
 	// decodes the responses the crashed process stored. Whatever the engine makes of such a plan (refusing to start,
 	// leaving it alone, resuming it), a durable success must not be executed again. Only the C09 rules are applied.
 	Upgrade bool `json:",omitempty"`
+	// SearchFault > 0 (C09 only): at the first usable crash point one more restart is made in which the stream of
+	// recovery's Search for Running plans breaks after SearchFault-1 results (a storage hiccup during start-up). Whatever
+	// the engine makes of it (give up, retry), nothing may be executed twice; only the C09 rules are applied, liveness
+	// is not judged (short stall window).
+	SearchFault int `json:",omitempty"`
 }
 
 // RunCrashCase executes the uninterrupted run, then crashes and recovers at the chosen points.
@@ -425,6 +499,7 @@ func RunCrashCase(c *CrashCase, which string, res *vprop.Result) {
 			return
 		}
 	}
+	searchFaultDone := false
 	for i, k := range ks {
 		prefix := writes[:k]
 		d := SnapshotAt(prefix)
@@ -436,6 +511,28 @@ func RunCrashCase(c *CrashCase, which string, res *vprop.Result) {
 		where := fmt.Sprintf("crash after write %d of %d (%s %v)", k, n, prefix[k-1].Tag, prefix[k-1].State.Status)
 		if !judge(d, rr1, where) {
 			return
+		}
+		if c.SearchFault > 0 && which == "C09" && !searchFaultDone && d.anyPlanRunning(len(sc.Plans)) {
+			searchFaultDone = true
+			reg := NewRegistry(sc)
+			if v, created, err := RebuildVault(reg, prefix); err == nil && len(created) == len(sc.Plans) {
+				ids := make([]uuid.UUID, len(created))
+				for i, p := range created {
+					ids[i] = p.ID
+				}
+				rrf := Run(sc, RunOpts{Vault: v, Reg: reg, Recover: true, Pristine: created, RecoverIDs: ids,
+					SearchFault: c.SearchFault, StallWindow: 400 * time.Millisecond, HardLimit: 30 * time.Second})
+				if rrf.NewErr == nil {
+					vprop.Count("restarts_with_broken_search_stream", 1)
+					CheckC09(sc, d, rrf, where+", restart with a search stream that breaks after "+fmt.Sprint(c.SearchFault-1)+" result(s)", res)
+					if len(res.Violations) > 0 {
+						return
+					}
+					if rrf.Stalled && rrf.Lab.openTotal() == 0 {
+						_ = v.Close(context.Background()) // nothing was resumed and nothing executes: the run left the vault open
+					}
+				}
+			}
 		}
 		if i%3 != 0 || len(c.Second) == 0 {
 			continue
